@@ -37,6 +37,7 @@ def run(chk, F):
     chk.guard("of-errors", "eval_expr", lambda: of_errors(chk, F))
     chk.guard("formula-shape", "substance_from_formula", lambda: formula(chk, F))
     chk.guard("symbol-invariant", "load_defs", lambda: symbol_invariant(chk, F))
+    chk.guard("mixture-weights", "Add for &Substance", lambda: mixture_weights(chk, F))
 
 
 def siblings(chk, F):
@@ -273,3 +274,31 @@ def symbol_invariant(chk, F):
     # no other writer of those two maps
     for g, bb, j, f, how in cg.field_writes(F, "loader::registry::Registry", {"substance_symbols", "substances"}):
         chk.decide(g.id == fn.id, "symbol-invariant", "%s::%s" % (g.crate, g.path), "writer:" + f, g.where(bb, j), "written by load_defs", "Registry.%s is written outside load_defs" % f)
+
+
+def mixture_weights(chk, F):
+    """`a X + b Y` builds every shared property as a*X.p + b*Y.p: the amounts are weights, and a dimensioned weight would be
+    multiplied into the dimension of every property (`molar_mass of (3 kg hydrogen + 2 kg oxygen)` came out in kg^2/mol).
+    The properties may only be built behind `amount.dimless()` of both operands."""
+    fns = [f for f in F.by_crate[CORE] if f.path.endswith("core::ops::arith::Add<&'b runtime::substance::Substance>>::add") and "{closure" not in f.path]
+    if len(fns) != 1:
+        raise AnchorLost("Add for &Substance not found")
+    fn = fns[0]
+    fk = "rink_core::<&Substance as Add<&Substance>>::add"
+    # the construction of the result (the closure that builds the properties is created there)
+    sites = [i for i, j, st in fn.stmts() if st.get("rv", {}).get("k") == "agg" and st["rv"].get("agg") == "closure"]
+    if not sites:
+        raise AnchorLost("Add for &Substance: property-building closure not found")
+    need = {"arg1.amount": False, "arg2.amount": False}
+    for bb in sites[:1]:
+        for g in fn.guards_of(bb):
+            d = fn.guard_desc(g)
+            if d[0] == "bool" and d[1][0][0] == "call" and d[1][0][1].endswith("Number::dimless") and d[2] is True:
+                a = ap_str(d[1][0][2][0])
+                if a in need:
+                    need[a] = True
+    ok = all(need.values())
+    chk.decide(ok, "mixture-weights", fk, "amounts-dimensionless", fn.where(sites[0]),
+               "the summed properties are built only when both amounts are dimensionless",
+               "substances are added with their amounts as weights but the amounts are not required to be dimensionless (%s): a dimensioned amount "
+               "ends up in the dimension of every property of the sum" % [k for k, v in need.items() if not v])
